@@ -363,16 +363,19 @@ impl<'de, R: Reader<'de>> Deserializer<R> {
             let json = self.parser.read.as_u8_slice();
 
             // get n to check trailing characters in later
-            let (n, len) = if cfg.utf8_lossy && self.parser.read.next_invalid_utf8() != usize::MAX {
+            let (n, len, repaired) = if cfg.utf8_lossy
+                && self.parser.read.next_invalid_utf8() != usize::MAX
+            {
                 // repr the invalid utf8, not need to care about the invalid UTF8 char in non-string
                 // parts, it will cause errors when parsing.
                 let repaired = String::from_utf8_lossy(json);
                 (
                     val.parse_with_padding(repaired.as_bytes(), cfg)?,
                     repaired.len(),
+                    true,
                 )
             } else {
-                (val.parse_with_padding(json, cfg)?, json.len())
+                (val.parse_with_padding(json, cfg)?, json.len(), false)
             };
             // The in-place parser runs on a private copy terminated by the `x"x` padding and
             // does not validate UTF-8.  `from_slice`/`from_str` catch both afterwards (trailing
@@ -380,10 +383,18 @@ impl<'de, R: Reader<'de>> Deserializer<R> {
             // not, so check here: the value must end inside the input and be valid UTF-8.
             if n > len {
                 // never leave the reader beyond its input: later calls compute `len - index`
-                self.parser.read.eat(len);
+                self.parser.read.eat(json.len());
                 return Err(self.parser.error(ErrorCode::EofWhileParsing));
             }
-            self.parser.read.eat(n);
+            // `n` counts bytes of the text that was parsed; when that was the repaired copy, find
+            // the corresponding offset of the input (the trailing check and the next value of a
+            // stream continue from there)
+            let consumed = if repaired {
+                lossy_offset_in_input(json, n)
+            } else {
+                n
+            };
+            self.parser.read.eat(consumed);
             if !cfg.utf8_lossy && self.parser.read.next_invalid_utf8() < n {
                 return Err(self.parser.read.check_utf8_final().unwrap_err());
             }
@@ -1334,6 +1345,29 @@ where
 }
 //////////////////////////////////////////////////////////////////////////////
 
+/// Offset in `json` that corresponds to offset `n` of `String::from_utf8_lossy(json)`: every
+/// invalid sequence of the input is a 3-byte U+FFFD there.
+fn lossy_offset_in_input(json: &[u8], n: usize) -> usize {
+    let (mut inp, mut rep) = (0usize, 0usize);
+    for chunk in json.utf8_chunks() {
+        let valid = chunk.valid().len();
+        if rep + valid >= n {
+            return inp + (n - rep);
+        }
+        rep += valid;
+        inp += valid;
+        let invalid = chunk.invalid().len();
+        if invalid > 0 {
+            if rep + 3 > n {
+                return inp + invalid;
+            }
+            rep += 3;
+            inp += invalid;
+        }
+    }
+    json.len()
+}
+
 fn from_trait<'de, R, T>(read: R) -> Result<T>
 where
     R: Reader<'de>,
@@ -1364,8 +1398,11 @@ where
     // Make sure the whole stream has been consumed.
     tri!(de.parser.parse_trailing());
 
-    // check invalid utf8
-    tri!(de.parser.read.check_utf8_final());
+    // check invalid utf8 (in lossy mode invalid sequences inside strings have been repaired and
+    // anything else has already been rejected by the parser)
+    if !de.parser.cfg.utf8_lossy {
+        tri!(de.parser.read.check_utf8_final());
+    }
     Ok(value)
 }
 
